@@ -11,7 +11,7 @@ import mp_common as M
 import utf_common as U
 
 LEVEL = "proof"
-EXTRA_PROPERTIES = ["C03s"]     # the scopes as an adaptive client of the reader interface: stream = memory at the scope level (coq/MpScopeClient.v, Properties_C03s.v)
+EXTRA_PROPERTIES = ["C03s", "C03csv"]     # C03csv: the CSV instance (by-name requests on a row in any order; csv family); the scopes as an adaptive client of the reader interface: stream = memory at the scope level (coq/MpScopeClient.v, Properties_C03s.v)
 TRUSTED_BASE = [
     "Coq 8.16.1 kernel incl. vm_compute (witnesses of the _refuted theorems, Examples, byte-class sweeps); no native_compute",
     "axioms: none (every theorem prints 'Closed under the global context')",
@@ -1032,6 +1032,27 @@ def run(ctx, vlib):
 
     step = max(1, len(cases) // 3)
     samples = [dict(case=cases[i], implementation=oi[i], model=om[i]) for i in range(0, len(cases), step)][:4]
+    res = _run_tail(locals())
+    # the CSV instance (csv family, coq/Properties_C03csv.v): request programs per row through LoadObject<CsvArchive>,
+    # memory and stream readers (chunk sizes 256 and the hook builds), against the extracted CSV model and an independent reading
+    import C03csv
+    cs = C03csv.run_c03csv(ctx, vlib)
+    res["evaluations"] += cs.get("evaluations", 0)
+    res["distinct_nontrivial"] += cs.get("distinct_nontrivial", 0)
+    res["failing"] = (res["failing"] + cs.get("failing", []))[:20]
+    res["diffs"] = res["diffs"] + cs.get("diffs", [])
+    for k, v in cs.get("classes", {}).items():
+        res["classes"]["csv " + str(k)] = v
+    res["extra"]["csv_judge_verdicts"] = cs.get("verdicts")
+    res["extra"]["csv_chunk_sizes"] = cs.get("chunk_sizes")
+    res["rule"] += "; " + cs.get("rule", "")
+    res["broken"] += "; correspondence CSV model vs src/csv/csv_readers.cpp + csv_archive (drv_csv, op csvh)"
+    return res
+
+
+def _run_tail(L):
+    cases, nontrivial, samples, classes, failing, diffs, known_lines, verdicts, nsv = (L[k] for k in
+        ("cases", "nontrivial", "samples", "classes", "failing", "diffs", "known_lines", "verdicts", "nsv"))
     return dict(evaluations=len(cases), distinct_nontrivial=nontrivial, samples=samples, classes=classes, failing=failing, diffs=diffs,
                 known_lines=known_lines, extra=dict(judge_verdicts=verdicts, spec_vs_model_cases=nsv),
                 rule="object documents with 0-8 distinct keys of every supported kind (string / integer in every wire format / float / double / timestamp 32-64-96), values scalars, strings, byte arrays, nested arrays and objects (independent encoder, random format widths): all permutations of one request per key for 1-5 keys; random histories of up to 24 requests with absent and repeated keys, mismatching targets, children opened and left partly read, binary-then-array fallback, VisitKeys; documents of several 256-byte stream chunks with backward requests; array roots read element by element with every target kind; each through the string reader, the stream reader and MsgPackReadRootScope, policies SS/TT/ST/TS; plus truncated / corrupted documents and unsupported key kinds (correspondence only). Every implementation answer is also compared with an independent association-list evaluation. non-trivial = distinct case in which a value was loaded, a child opened or keys visited",
@@ -1039,6 +1060,9 @@ def run(ctx, vlib):
 
 
 def replay(rp, vlib):
+    if str(rp.get("case", "")).startswith("csvh "):
+        import C03csv
+        return C03csv.replay_c03csv(rp, vlib)
     impl, model = drivers(vlib)
     line = rp["case"]
     a = vlib.run_driver(impl, [line], jobs=1)[0]
